@@ -8,7 +8,7 @@ import ast
 
 from ..core import AnchorError, call_name, norm, short, own_nodes, kwarg, FUNC_TYPES
 from ..cfg import cfg_of
-from ..lib import calls_in, stmts_in, gate, must_pass, node_has, params, dominating_facts, effective_body
+from ..lib import calls_in, stmts_in, gate, must_pass, node_has, params, dominating_facts, effective_body, key_function
 
 COMP = 'jedi.api.completion'
 CLS = 'jedi.api.classes'
@@ -162,21 +162,8 @@ def rule_e(repo, chk):
     srt = [c for c in calls_in(f, 'sorted')] + [c for c in calls_in(f, 'sort')]
     chk.floor('C04.e', len(srt), 1)
     for c in srt:
-        key = kwarg(c, 'key')
-        body = key.body if isinstance(key, ast.Lambda) else None
-        arg = key.args.args[0].arg if isinstance(key, ast.Lambda) else 'x'
-        if body is None and isinstance(key, ast.Name):
-            for d in ast.walk(f):
-                if isinstance(d, ast.FunctionDef) and d.name == key.id and isinstance(d.body[-1], ast.Return):
-                    body, arg = d.body[-1].value, d.args.args[0].arg
-        if body is None and isinstance(key, ast.Attribute) and norm(key.value) == 'self':
-            # a method of the same class as key function: its single return expression, the parameter after self
-            ci = repo.cls(COMP, 'Completion')
-            d = repo.find_method(ci, key.attr)
-            eb = effective_body(d) if d is not None else []
-            if len(eb) == 1 and isinstance(eb[0], ast.Return) and len(d.args.args) == 2:
-                body, arg = eb[0].value, d.args.args[1].arg
-        elts = [norm(e) for e in body.elts] if isinstance(body, ast.Tuple) else None
+        kf = key_function(repo, f, kwarg(c, 'key'))
+        elts, arg = kf if kf is not None else (None, 'x')
         want = ['not %s.name.startswith(self._like_name)' % arg, "%s.name.startswith('__')" % arg, "%s.name.startswith('_')" % arg, '%s.name.lower()' % arg]
         chk.ob('C04.e', elts == want, c, 'sort key = (not startswith(fragment), startswith("__"), startswith("_"), name.lower())', 'key: %s' % elts)
         chk.ob('C04.e', kwarg(c, 'reverse') is None, c, 'ascending')
